@@ -101,7 +101,7 @@ class LazySparse(Sparse_):
         return iter(self.keys())
 
     def __len__(self) -> int:
-        return len(self._load_or_get())
+        return len(self._load_or_get().keys() | self._nsp)
 
     def keys(self) -> abc.KeysView:
         hdr_inv_get = self._inv.__getitem__ if self._inv else lambda x:x
